@@ -325,6 +325,26 @@ func c06Main(args []string) error {
 		}
 		return nil
 	}
+	// failing streams read to exhaustion, then closed: after the chunk decoder has stopped at an undecodable
+	// chunk the document reader is still parked on its hand-over, and only Close / cancel frees it
+	{
+		good := srStream(5, 1)
+		bad := withPayload(good, 1, func(p []byte) []byte { return append([]byte{}, p[:3]...) })
+		abs := srAbstract(bad, 1, -1, false)
+		for _, entry := range []string{"chunks", "metrics", "structured", "matrix", "series"} {
+			for _, mode := range []string{"close", "close2", "cancel", "both"} {
+				ob, err := c06Run(entry, bad, 1000, mode, "", 0, nil)
+				if err != nil {
+					return err
+				}
+				if ob.leaked > 0 || ob.watchdog {
+					c06Failing++
+				}
+				o.printf("Q %s %d %d %d %s stall=%s read=%d total=%d leaked=%d further=%d watchdog=%d us=%d in=%s\n",
+					entry, -5, 1, 1000, mode, "-", ob.read, ob.read, ob.leaked, ob.further, b2i(ob.watchdog), ob.us, abs)
+			}
+		}
+	}
 	shapes := [][2]int{{1, 1}, {3, 1}, {1, 300}, {3, 300}, {40, 1}, {40, 300}}
 	sends := map[string][]string{
 		"chunks": {"rd.send", "rc.send"}, "metrics": {"rd.send", "rc.send", "cw.send", "ss.send"},
